@@ -353,6 +353,13 @@ def roots(ctx):
                    'fill': ctx.seed + i, 'chunk': 2}
             out.append(lay)
             i += 1
+    # integer samples close to the limits of their type: every intermediate result of a program wraps
+    # as the eager expression does (a deferred program must not be simplified algebraically)
+    for backend, dt in (('flat', 'int16'), ('array', 'uint8'), ('npy', 'int16')):
+        out.append({'backend': backend, 'dtype': dt, 'n_channels': 3, 'offset': 0,
+                    'parts': [2, 3] if backend == 'flat' else [5], 'sample_rate': 2 / 600.0,
+                    'fill': ctx.seed + i, 'chunk': 2, 'big': True})
+        i += 1
     return out
 
 
